@@ -138,6 +138,19 @@ def run(ctx):
                 ctx.known_finding("string-match-var-in-literal-rules", "let v = \"outer\" / match s with | \"a\" -> v + \"!\" | v -> v + \"?\" with s = \"a\": the literal rule sees the rule variable v (the matched string) instead of the outer v: a! instead of outer!")
             else:
                 bad.append((idx, pos, exp))
+    # the designated probe of the known finding sinterp-token-column (run directly: the probe is about acceptance only)
+    pd = ctx.mkdir("c01probe5")
+    with open(os.path.join(pd, "sip.fo"), "w") as fh:
+        fh.write("package main\n\nimport frt\n\nlet main () =\n  $\"first\" |> frt.Println\n  let n = 2\n  frt.Printf1 \"%d\\n\" n\n")
+    from vlib import fcutil
+    rc5, so5, se5 = fcutil.run_fc(ctx, [os.path.join(pd, "sip.fo")], timeout=60)
+    if rc5 != 0:
+        if ctx.is_known("sinterp-token-column"):
+            ctx.known_finding("sinterp-token-column", "let main () = / $\"first\" |> frt.Println / let n = 2 / ..: the first statement of the block starts with an interpolated literal, whose token begins at the quote (one column right of the $); the following statements end the block and fc rejects the program (%s)" % (so5.strip().splitlines()[-1].split(":")[-1].strip() if so5.strip() else "exit %d" % rc5))
+        else:
+            ctx.violation("a block whose first statement starts with an interpolated literal is rejected: " + so5[-200:], {"kind": "sinterp-probe"})
+    elif ctx.is_known("sinterp-token-column"):
+        ctx.note("the known finding sinterp-token-column no longer reproduces (apparently repaired)")
     if "dangling-else-inner-if-only" not in ctx.known and not any(progs[idx]["id"] == fid2 for idx, _, _ in bad):
         ctx.note("the known finding dangling-else-inner-if-only no longer reproduces (apparently repaired)")
     if not any(progs[idx]["id"] == fid for idx, _, _ in bad) and "partial-app-effectful-arg" not in ctx.known:
